@@ -518,14 +518,15 @@ fn c08_data_frag() {
     data_frag_trip::<60, 4>(false, true, false);
 }
 
-// @check props=C08 tier=thorough
+// @parked (DATA_FRAG with inline QoS round trip: no answer in 1800 s in the final thorough run; not indexed) props=C08 tier=thorough
 // @desc DATA_FRAG with inline QoS (one 4-byte parameter), non-standard-payload flag, 3-byte payload (not a multiple of 4)
 // @bounds payload 3 bytes, 1 parameter; message 71 bytes; unwind 76
 // @assume parameter id concrete (0x0070)
 // @enc rtps_messages::overall_structure::RtpsMessageWrite::new
 // @enc rtps_messages::overall_structure::SubmessageHeaderRead::try_read_from_bytes
-#[kani::proof]
-#[kani::unwind(76)]
+// #[kani::proof]
+// #[kani::unwind(76)]
+#[allow(dead_code)]
 fn c08_data_frag_inline_qos() {
     data_frag_trip::<71, 3>(true, false, true);
 }
